@@ -285,7 +285,7 @@ def extra(ctx, n=None):
     from .. import core
     rng = ctx.rng
     quick = ctx.quick()
-    n_plain, n_lab, n_ulab = (2400, 300, 3000) if quick else (12000, 1500, 12000)
+    n_plain, n_lab, n_ulab = (2000, 240, 2400) if quick else (12000, 1500, 12000)
     if n:
         n_plain, n_lab, n_ulab = n, n // 8, n // 3
     args = ([(rng.randrange(1 << 62), i, quick, "plain") for i in range(n_plain)]
